@@ -8,6 +8,7 @@ import (
 	"strconv"
 	"strings"
 	"time"
+	"unicode/utf8"
 
 	"zogverif/internal/rng"
 	"zogverif/internal/spec"
@@ -59,6 +60,10 @@ func RecordSchema(r *rng.Rand, o FrontOpts) *spec.Node {
 				child = &spec.Node{Kind: spec.Slice, Elem: leaf()}
 				g.sliceMods(child)
 				g.sliceTests(child)
+				if child.Elem.Kind == spec.String && len(child.Tests) == 0 && r.Intn(5) == 0 {
+					// a custom slice coercer (it replaces whatever list the source presents by its own, of 2 or 3 items)
+					child.Coercer = &spec.CoercerSpec{Mark: [][]any{{"m1", "m2"}, {"m1", "m2", "m3"}}[r.Intn(2)]}
+				}
 			case c < 46:
 				child = &spec.Node{Kind: spec.Ptr, Elem: leaf()}
 				if r.Bool() {
@@ -191,8 +196,8 @@ func recLeaf(n *spec.Node, v any) any {
 	switch x := v.(type) {
 	case string:
 		s := strings.TrimSpace(x)
-		if s == "" {
-			return "x"
+		if s == "" || !utf8.ValidString(s) {
+			return "x" // (a JSON document cannot carry invalid UTF-8)
 		}
 		return s
 	case time.Time:
